@@ -102,6 +102,25 @@ def algebraic(fr):
     return fr
 
 
+SQRT_READ = {}
+
+
+def algebraic_sqrt(fr):
+    """(sign, q) if the float constant is within 1 ulp of +-sqrt(q), q a fraction with denominator <= 10^4 that is not a
+    perfect square (e.g. 1/math.sqrt(3)); else None"""
+    got = SQRT_READ.get(fr)
+    if got is not None:
+        return got or None
+    out = False
+    if fr.denominator != 1 and algebraic(fr) == fr and fr.limit_denominator(10000) != fr:
+        x = float(fr)
+        q = Fraction(x * x).limit_denominator(10000)
+        if q > 0 and abs(math.sqrt(float(q)) - abs(x)) <= abs(x) * 2.0 ** -51:
+            out = (1 if x > 0 else -1, q)
+    SQRT_READ[fr] = out
+    return out or None
+
+
 def size(n):
     seen = set()
     st = [n]
@@ -177,21 +196,30 @@ def to_float(n, env, memo=None):
 def to_z3(n, zenv, memo, side, exact_consts=False):
     """exact Real term.  side collects tagged side constraints: ('sqrt', definition) / ('den', denominator != 0)."""
     import z3
-    for x in topo([n]):
+    sidemap = memo.setdefault('__side__', {})
+    order = topo([n])
+    for x in order:
         if x in memo:
             continue
         op = x.op
         a = x.args
         if op == 'var': r = zenv(a[0])
         elif op == 'const':
-            f = a[0] if exact_consts else algebraic(a[0])
-            r = z3.RealVal(f"{f.numerator}/{f.denominator}")
+            sq = None if exact_consts else algebraic_sqrt(a[0])
+            if sq is not None:
+                sign, q = sq
+                root = z3.Real(f"csqrt!{q.numerator}_{q.denominator}")
+                sidemap[x] = ('csqrt', z3.And(root * root == z3.RealVal(f"{q.numerator}/{q.denominator}"), root > 0))
+                r = root if sign > 0 else -root
+            else:
+                f = a[0] if exact_consts else algebraic(a[0])
+                r = z3.RealVal(f"{f.numerator}/{f.denominator}")
         elif op == 'add': r = memo[a[0]] + memo[a[1]]
         elif op == 'sub': r = memo[a[0]] - memo[a[1]]
         elif op == 'mul': r = memo[a[0]] * memo[a[1]]
         elif op == 'div':
             d = memo[a[1]]
-            side.append(('den', d != 0))
+            sidemap[x] = ('den', d != 0)
             r = memo[a[0]] / d
         elif op == 'neg': r = -memo[a[0]]
         elif op == 'pow':
@@ -200,11 +228,11 @@ def to_z3(n, zenv, memo, side, exact_consts=False):
             if e >= 0:
                 for _ in range(e): r = r * b
             else:
-                side.append(('den', b != 0))
+                sidemap[x] = ('den', b != 0)
                 for _ in range(-e): r = r / b
         elif op == 'sqrt':
             r = z3.Real(f"sqrt!{x.nid}")
-            side.append(('sqrt', z3.And(r * r == memo[a[0]], r >= 0)))
+            sidemap[x] = ('sqrt', z3.And(r * r == memo[a[0]], r >= 0))
         elif op == 'abs':
             v = memo[a[0]]; r = z3.If(v >= 0, v, -v)
         elif op == 'sign':
@@ -228,6 +256,11 @@ def to_z3(n, zenv, memo, side, exact_consts=False):
             r = f(*[memo[q] for q in a[1:]])
         else: raise NotImplementedError(op)
         memo[x] = r
+    if sidemap:
+        for x in order:
+            sc = sidemap.get(x)
+            if sc is not None:
+                side.append(sc)
     return memo[n]
 
 
